@@ -294,7 +294,14 @@ def rule_shared(ctx):
         W.uniform_workers(ctx, P, crate, fam, "W.R2")
 
 
+def rule_twins(ctx):
+    """the IPv4 and IPv6 copies of the per-packet functions route sides, roles and lookups identically (shared rule TW)"""
+    from . import _twins as TW
+    TW.twin_agreement(ctx, ctx.program, "TW", ("huginn_net_http", "huginn_net_tls"), floor=6)
+
+
 def run(ctx):
+    rule_twins(ctx)
     rule_shared(ctx)
     rule_tls_lifecycle(ctx)
     rule_args(ctx)
